@@ -354,7 +354,12 @@ class Eval(object):
             if cur['id'] == stop:
                 return prev
             if cur['id'] in self._visited:
-                raise NotStraightLine('block %s reached twice (loop or shared arm)' % cur['name'])
+                # with an oracle that decides every branch the path is a straight line even through a loop: the loop is
+                # unrolled along it (max_visits bounds the unrolling)
+                self._visits = getattr(self, '_visits', {})
+                self._visits[cur['id']] = self._visits.get(cur['id'], 1) + 1
+                if self.oracle is None or self._visits[cur['id']] > getattr(self, 'max_visits', 1):
+                    raise NotStraightLine('block %s reached twice (loop or shared arm)' % cur['name'])
             self._visited.add(cur['id'])
             nxt = None
             if self.is_assert_block(cur):
